@@ -8,6 +8,8 @@ one user inflow of the leg's input amount and one vault outflow of its output am
 side-consistently (mint, vault, owner account, program, hook accounts, amount); protocol
 fee collection pays the owed amounts to accounts of the pool's mints and resets them; the
 Traded event reports the amounts moved.
+Also decided: the v2 transfer-fee wrapping keeps the charged input on the input mint (C16.R1 instances
+re-decided here);
 Not decided: the identity summed over multi-step swaps with numbers."""
 from analysis import cfg, atoms as A, preach, writes, accounts as ACC
 from analysis.ir import callee_path, AnchorMissing
